@@ -698,7 +698,7 @@ impl Phase for LongLived {
         }
         if idx % 5 == 3 {
             // sequences and argument lists of every size 2..=70 (inline buffers have sizes)
-            let n = 2 + (idx / 5 % 69) as usize;
+            let n = if r.chance(1, 6) { (*r.pick(&crate::gen::BOUNDARY_SIZES[20..31])).max(2) } else { 2 + (idx / 5 % 69) as usize };
             let elems: Vec<Ast> = (1..=n as i64).map(|k| call(if k % 7 == 0 { "b" } else { "t" }, k)).collect();
             let a = match r.below(4) {
                 0 => Ast::Tuple(elems),
@@ -706,7 +706,7 @@ impl Phase for LongLived {
                 2 => Ast::Call("id".into(), Box::new(Ast::Tuple(elems))),
                 _ => Ast::Call("max".into(), Box::new(Ast::Tuple(elems.into_iter().filter(|e| matches!(e, Ast::Call(f, _) if f == "t")).collect()))),
             };
-            out.count("sequences of exact sizes 2..=70");
+            out.count("sequences of exact sizes 2..=70 and boundary sizes up to 513");
             check_program(out, &a, &base_model(), r);
             return;
         }
